@@ -28,6 +28,9 @@ type FaultSpec struct {
 	Node  int    `json:"node"`  // node index, -1 = n/a
 	Occur int    `json:"occur"`
 	Kind  string `json:"kind"` // before | after | cancel
+	// Wrap (callback faults): the error the callback returns also wraps this sentinel error of
+	// the library (not-found, already-exists, unsupported, size-exceeds); "" = none
+	Wrap string `json:"wrap,omitempty"`
 }
 
 func (f FaultSpec) key() string { return fmt.Sprintf("%s.%s.%d", f.Store, f.Op, f.Node) }
@@ -354,9 +357,26 @@ func (m *Monitor) callback(name string, node int) error {
 	var err error
 	if k == "before" || k == "after" {
 		err = fmt.Errorf("callback %s node %d: %w", name, node, errInjected)
+		m.mu.Lock()
+		occ := m.counts[fmt.Sprintf("cb.%s.%d", name, node)]
+		for _, f := range m.faults {
+			if f.Store == "cb" && f.Op == name && f.Node == node && f.Occur == occ && f.Wrap != "" {
+				if w, ok := callbackWraps[f.Wrap]; ok {
+					err = fmt.Errorf("callback %s node %d: %w: %w", name, node, errInjected, w)
+				}
+			}
+		}
+		m.mu.Unlock()
 	}
 	m.leave("cb", name, node, err)
 	return err
+}
+
+var callbackWraps = map[string]error{
+	"not-found":      errdef.ErrNotFound,
+	"already-exists": errdef.ErrAlreadyExists,
+	"unsupported":    errdef.ErrUnsupported,
+	"size-exceeds":   errdef.ErrSizeExceedsLimit,
 }
 
 func sortedFaults(fs []FaultSpec) []FaultSpec {
